@@ -7,6 +7,7 @@ import glob, json, os, re
 
 ROOT = os.path.join(os.path.dirname(os.path.abspath(__file__)), "..")
 rows = []
+STR = json.load(open(os.path.join(ROOT, "seeded", "strengthening.json"))) if os.path.exists(os.path.join(ROOT, "seeded", "strengthening.json")) else {}
 for mf in sorted(glob.glob(os.path.join(ROOT, "seeded", "*", "meta.json"))):
     m = json.load(open(mf))
     seed = m["seed"]
@@ -30,7 +31,7 @@ for mf in sorted(glob.glob(os.path.join(ROOT, "seeded", "*", "meta.json"))):
         seed, title.replace("|", "/")[:110], ", ".join(m.get("touched_crates", [])),
         "yes" if m.get("confirmed") else "NO",
         ("yes (%s)" % chk.get("cmd", "").replace("./check ", "")) if chk.get("detected") else ("not run" if not chk else "**missed**"),
-        (m.get("strengthening") or how).replace("|", "/")))
+        (STR.get(seed) or m.get("strengthening") or how).replace("|", "/")))
 hdr = ["| seed | change | crates | confirmed (demo fails with / passes without, existing tests pass) | detected | how / what was strengthened |",
        "|---|---|---|---|---|---|"]
 table = "\n".join(hdr + rows)
